@@ -22,7 +22,7 @@ ASSUMPTIONS = ["a disconnect request is only issued while a connection is up or 
                "a 'disconnected' announcement for an attempt that never came up is not a refutation",
                "the first login (key upload + reconnect) happens before the judged history starts",
                "the real socket/asyncore dispatchers are driven through 6 scripted lifecycles each over loopback TCP (peer close, local disconnect, refused connect, login failure, stream error with automatic reconnect, re-login); a bare timeout there is reported as a violation only together with the observed announcement counts"]
-REQUIRED = ["histories", "events", "checkpoints", "ev:connected", "ev:success", "ev:failure", "ev:stream-error", "ev:tick", "ev:pong",
+REQUIRED = ["race_sweep_histories", "tick_race_paused_mid_step", "histories", "events", "checkpoints", "ev:connected", "ev:success", "ev:failure", "ev:stream-error", "ev:tick", "ev:pong",
             "ev:connected-held", "ev:release-handshake", "ev:socket-error", "ev:peer-close", "ev:disconnect-request", "auto_reconnects", "ping_timeouts", "pings_seen", "states_visited",
             "real_cases", "real_ok"]
 TIMEOUT = {"quick": 600, "thorough": 7200}
@@ -79,8 +79,50 @@ def wait_ping_threads(clock, timeout=20.0):
         time.sleep(0.0003)
 
 
+class PingRacer(object):
+    """Stops the keep-alive thread at its k-th line event inside protocol_iq/layer.py until resumed."""
+
+    def __init__(self, k):
+        self.k = k
+        self.n = 0
+        self.at_point = threading.Event()
+        self.resume = threading.Event()
+        self.where = None
+
+    def install(self):
+        import sys
+        mon = sys.monitoring
+        try:
+            mon.use_tool_id(inject.TOOL, "vf-pingrace")
+        except ValueError:
+            mon.free_tool_id(inject.TOOL)
+            mon.use_tool_id(inject.TOOL, "vf-pingrace")
+
+        def cb(code, lineno):
+            if not code.co_filename.endswith("protocol_iq/layer.py"):
+                return mon.DISABLE
+            if threading.current_thread().__class__.__name__ != "YowPingThread":
+                return None
+            self.n += 1
+            if self.n == self.k:
+                self.where = "%s:%d" % (code.co_name, lineno)
+                self.at_point.set()
+                self.resume.wait(10)
+        mon.register_callback(inject.TOOL, mon.events.LINE, cb)
+        mon.set_events(inject.TOOL, mon.events.LINE)
+        mon.restart_events()
+
+    def remove(self):
+        import sys
+        mon = sys.monitoring
+        mon.set_events(inject.TOOL, 0)
+        mon.register_callback(inject.TOOL, mon.events.LINE, None)
+        mon.free_tool_id(inject.TOOL)
+
+
 EVENTS = ["connect-request", "connected", "connected-held", "release-handshake", "socket-error", "peer-close", "disconnect-request", "success", "failure", "stream-error:conflict",
-          "stream-error:ack", "stream-error:xml-not-well-formed", "tick", "tick", "tick", "pong"]
+          "stream-error:ack", "stream-error:xml-not-well-formed", "tick", "tick", "tick", "pong",
+          "tick-race:peer-close", "tick-race:disconnect-request", "tick-race:socket-error"]
 
 
 class Ref(object):
@@ -132,6 +174,10 @@ class Ref(object):
             return self.conn == "up" and self.handshake
         if ev == "tick":
             return True
+        if ev.startswith("tick-race"):
+            # the clock advances and, while the keep-alive thread is in the middle of its step, the connection goes down;
+            # only where the tick alone would not time out
+            return self.conn == "up" and self.authed and not self.outstanding
         if ev == "pong":
             return self.conn == "up" and self.outstanding
         return False
@@ -180,6 +226,11 @@ class Ref(object):
                 e["pings"] += 1
                 self.outstanding = True
                 self.next_due = self.now + self.interval
+        elif ev.startswith("tick-race"):
+            self.now += 1
+            self.race_ping_possible = self.next_due is not None and self.now >= self.next_due
+            down_ev = ev.split(":", 1)[1]
+            return self.apply(down_ev)
         elif ev == "pong":
             self.outstanding = False
         self.visited.add(self.state())
@@ -212,7 +263,7 @@ def observe(W, c, base):
     return {k: v - base.get(k, 0) for k, v in o.items()}
 
 
-def one_history(acc, seed, tag):
+def one_history(acc, seed, tag, forced=None):
     from vf import world
     from yowsup.layers.interface import YowInterfaceLayer
     from yowsup.layers.protocol_iq import YowIqProtocolLayer
@@ -222,6 +273,9 @@ def one_history(acc, seed, tag):
     opts = {"reconnect": r.random() < 0.6, "interval": r.choice([1, 2, 3]), "passive": r.random() < 0.3, "sync_close": r.random() < 0.6,
             "reconnect_prop_set": r.random() < 0.7, "double_close_report": r.random() < 0.3}
     n = r.randint(6, 16)
+    if forced:
+        opts.update(forced["opts"])
+        n = len(forced["events"])
     clock = VClock()
     old_time = iqmod.time
     iqmod.time = clock
@@ -285,6 +339,11 @@ def one_history(acc, seed, tag):
                     wgt = 4.0
                 wts.append(wgt)
             ev = r.choices(cand, weights=wts)[0]
+            if forced:
+                ev = forced["events"][i]
+                if not ref.enabled(ev):
+                    acc.inconc("%s: scripted event %s not enabled at step %d" % (tag, ev, i))
+                    return
             events.append(ev)
             acc.count("events")
             acc.count("ev:" + ev.split(":")[0])
@@ -309,6 +368,29 @@ def one_history(acc, seed, tag):
                 W.server.to_client(A, ("stream:error", {}, kids, None))
             elif ev == "tick":
                 clock.tick()
+            elif ev.startswith("tick-race"):
+                race_k = forced["race_k"] if forced else r.randint(1, 14)
+                racer = PingRacer(race_k)
+                racer.install()
+                try:
+                    clock.tick()
+                    reached = racer.at_point.wait(1.0)
+                    down_ev = ev.split(":", 1)[1]
+                    if down_ev == "socket-error":
+                        W.socket_error(A)
+                    elif down_ev == "peer-close":
+                        W.server_close(A)
+                    else:
+                        c.guarded(lambda: c.app.disconnect(), "disconnect")
+                    # the whole down event is processed while the keep-alive thread stands still at its k-th line
+                    W.run(max_steps=W.steps + 4000)
+                finally:
+                    racer.resume.set()
+                    racer.remove()
+                if reached:
+                    acc.count("tick_race_paused_mid_step")
+                    acc.seen("tick_race_points", racer.where)
+                acc.count("tick_races")
             elif ev == "pong":
                 # the server answers the oldest unanswered ping
                 pend = W.server.held_pings.pop(0) if W.server.held_pings else None
@@ -318,7 +400,7 @@ def one_history(acc, seed, tag):
             W.hold_raw = not ref.handshake and ev != "release-handshake" and (ev == "connected-held" or ref.conn == "up")
             good = settle()
             W.hold_connects = False
-            if ev in ("socket-error", "peer-close", "disconnect-request") or ref.conn != "up":
+            if ev in ("socket-error", "peer-close", "disconnect-request") or ev.startswith("tick-race") or ref.conn != "up":
                 W.hold_raw = False
             if not good:
                 return
@@ -331,7 +413,7 @@ def one_history(acc, seed, tag):
             if note == "ping-timeout":
                 acc.count("ping_timeouts")
                 interesting = True
-            if ev in ("socket-error", "failure", "peer-close") or ev.startswith("stream-error"):
+            if ev in ("socket-error", "failure", "peer-close") or ev.startswith("stream-error") or ev.startswith("tick-race"):
                 interesting = True
             obs = observe(W, c, base)
             acc.count("checkpoints")
@@ -347,6 +429,8 @@ def one_history(acc, seed, tag):
                                                "threads": {n: [list(f[:3]) for f in s_[:6]] for n, s_ in __import__("vf.probes", fromlist=["x"]).thread_states().items()}}))
                 return False
 
+            if ev.startswith("tick-race") and getattr(ref, "race_ping_possible", False) and obs["pings"] == e["pings"] + 1:
+                e["pings"] += 1         # the keep-alive had written its ping before the connection went down: both orders are fine
             for k in ("connect_calls", "connected", "authed", "pings", "failures", "stream_errors", "successes", "logins"):
                 if obs[k] != e[k]:
                     ok = bad("%s:%s:%s" % (k, "more" if obs[k] > e[k] else "fewer", ev.split(":")[0]), "%s: observed %d, the reference machine expects %d" % (k, obs[k], e[k]))
@@ -386,7 +470,7 @@ def one_history(acc, seed, tag):
         for s_ in ref.visited:
             acc.seen("ref_states", str(s_))
         from vf.evidence import h
-        acc.case(h([opts, events]), nontrivial=interesting and ref.exp["connected"] > 0)
+        acc.case(h([opts, events, forced["race_k"] if forced else None]), nontrivial=interesting and ref.exp["connected"] > 0)
         if ok:
             acc.count("history_ok")
         w["events"] = events
@@ -605,6 +689,19 @@ def patch_server():
     world.Server.__init__ = init
 
 
+def race_sweep(acc, seed, tag, down, interval):
+    """The connection goes down at every line boundary of the keep-alive thread's step (k = 1..20), then a fresh login on which
+    every ping is answered in time: no time-out may follow."""
+    for k in range(1, 21):
+        ev = ["connect-request", "connected", "success"] + ["tick"] * (interval - 1) + ["tick-race:" + down, "connect-request", "connected", "success"]
+        for _ in range(3):
+            ev += ["tick"] * interval + ["pong"]
+        forced = {"opts": {"interval": interval, "reconnect": False, "passive": False, "double_close_report": False, "reconnect_prop_set": True},
+                  "events": ev, "race_k": k}
+        one_history(acc, seed, "%s/%s/i%d/k%d" % (tag, down, interval, k), forced)
+        acc.count("race_sweep_histories")
+
+
 def shards(tier, seed, nworkers):
     q = tier == "quick"
     nsh = 6 if q else nworkers
@@ -614,6 +711,9 @@ def shards(tier, seed, nworkers):
     for dname in ("socket", "asyncore"):
         for k in range(reps):
             specs.append({"kind": "real", "dispatcher": dname, "rep": k, "timeout": 600})
+    for down in ("peer-close", "disconnect-request", "socket-error"):
+        for interval in ((1,) if q else (1, 2, 3)):
+            specs.append({"kind": "race-sweep", "down": down, "interval": interval})
     return specs
 
 
@@ -625,6 +725,10 @@ def run(spec, acc):
         for sc in REAL_SCENARIOS:
             real_case(acc, spec["seed"], "real/%s/%d/%s" % (spec["dispatcher"], spec["rep"], sc), spec["dispatcher"], sc)
         acc.sample({"real_dispatcher": spec["dispatcher"], "scenarios": REAL_SCENARIOS})
+        return
+    if spec["kind"] == "race-sweep":
+        race_sweep(acc, spec["seed"], "sweep", spec["down"], spec["interval"])
+        acc.sample({"race_sweep": "connection goes down at line event k=1..20 of the keep-alive thread's step, then relogin with every ping answered", "down": spec["down"]})
         return
     for i in range(spec["n"]):
         tag = "h/%d/%d" % (spec["shard"], i)
